@@ -282,6 +282,12 @@ func (d *duplexHTTPCall) makeRequest() {
 	// establish the receive side of the stream.
 	response, err := d.httpClient.Do(d.request)
 	if err != nil {
+		if ctxErr := d.ctx.Err(); ctxErr != nil {
+			// Transports may report the context's cause (context.WithCancelCause,
+			// WithTimeoutCause) or their own wording instead of ctx.Err(): once
+			// the context is done, that's why the request failed.
+			err = ctxErr
+		}
 		err = wrapIfContextError(err)
 		err = wrapIfLikelyH2CNotConfiguredError(d.request, err)
 		err = wrapIfLikelyWithGRPCNotUsedError(err)
